@@ -6,14 +6,14 @@ From Morph Require Import Base.UStr Model.Terms Model.Data Model.Engine Model.Pa
 (* library: the result is a union over groups, so it does not depend on how groups are assigned to workers nor on the
    order in which they finish (any labelling, any order: C02's theorem specialises) *)
 Theorem union_schedule_invariant :
-  forall cfg rules get_data (lab1 lab2 : rule -> label) l1 l2,
-    materialize_grouped cfg rules get_data lab1 = Ok l1 -> materialize_grouped cfg rules get_data lab2 = Ok l2 ->
+  forall cfg fe rules get_data (lab1 lab2 : rule -> label) l1 l2,
+    materialize_grouped cfg fe rules get_data lab1 = Ok l1 -> materialize_grouped cfg fe rules get_data lab2 = Ok l2 ->
     forall x, In x l1 <-> In x l2.
 Proof.
-  intros cfg rules gd lab1 lab2 l1 l2 H1 H2 x.
-  destruct (materialize_rules cfg rules gd) as [l|e] eqn:E.
-  - rewrite (grouped_same_statements _ _ _ _ _ _ H1 E x). symmetry. exact (grouped_same_statements _ _ _ _ _ _ H2 E x).
-  - exfalso. assert (H : exists e, materialize_grouped cfg rules gd lab1 = Err e) by (apply grouped_err_iff; eauto).
+  intros cfg fe rules gd lab1 lab2 l1 l2 H1 H2 x.
+  destruct (materialize_rules cfg fe rules gd) as [l|e] eqn:E.
+  - rewrite (grouped_same_statements _ _ _ _ _ _ _ H1 E x). symmetry. exact (grouped_same_statements _ _ _ _ _ _ _ H2 E x).
+  - exfalso. assert (H : exists e, materialize_grouped cfg fe rules gd lab1 = Err e) by (apply grouped_err_iff; eauto).
     destruct H as (e' & H). congruence.
 Qed.
 Print Assumptions union_schedule_invariant.
